@@ -36,6 +36,8 @@ int vorbis_synthesis(vorbis_block *vb,ogg_packet *op){
 
   /* first things first.  Make sure decode is ready */
   _vorbis_block_ripcord(vb);
+  vb->pcm=NULL; /* the previous block's vectors went with the ripcord; a
+                   rejected packet must not leave them for blockin */
   oggpack_readinit(opb,op->packet,op->bytes);
 
   /* Check the packet type */
@@ -100,6 +102,8 @@ int vorbis_synthesis_trackonly(vorbis_block *vb,ogg_packet *op){
 
   /* first things first.  Make sure decode is ready */
   _vorbis_block_ripcord(vb);
+  vb->pcm=NULL; /* the previous block's vectors went with the ripcord; a
+                   rejected packet must not leave them for blockin */
   oggpack_readinit(opb,op->packet,op->bytes);
 
   /* Check the packet type */
